@@ -43,6 +43,7 @@ type Obligation struct {
 	Model   string
 	Output  string
 	Clause  *Clause
+	Replayed bool
 	fc      *FnCtx
 }
 
@@ -87,6 +88,7 @@ type FnCtx struct {
 	exitReach map[*ssa.BasicBlock]string
 	specDF   []string
 	esc      *escInfo
+	existing []existingRef
 	allocSite map[ssa.Value]string
 	specAX   []string
 }
@@ -630,6 +632,7 @@ func (fc *FnCtx) generate() (err error) {
 		v := fc.val(p)
 		fc.inputs = append(fc.inputs, v.C...)
 		fc.assertGlobal(fc.oldRefs(v))
+		fc.recordExisting(v)
 	}
 	for _, p := range fn.FreeVars {
 		fc.val(p)
@@ -770,6 +773,7 @@ func (fc *FnCtx) processBlock(b *ssa.BasicBlock, pos map[*ssa.BasicBlock]int) {
 				break
 			}
 			pv := fc.freshVal(phi.Name()+"."+phi.Comment, phi.Type())
+			fc.recordExisting(pv)
 			for _, e := range fwd {
 				ev := fc.val(phi.Edges[e.idx])
 				fc.assert(implies(e.cond, eqVals(pv, ev)))
